@@ -578,11 +578,15 @@ def ref_compose_error_1d(N, L, mode, J, vals):
 # ------------------------------------------------ C02: synthesis o analysis = I
 def w_compose(S, item):
     dim, mode, L, size, J, wavelets = item
+    # 'default': the modules are built without a mode argument (both sides rely on their default, documented 'zero')
+    mkw = {} if mode == 'default' else {'mode': mode}
+    if mode == 'default':
+        mode = 'zero'
     res = {'cmp': 0, 'diff': 0, 'findings': [], 'sample': None}
     if dim == 1:
         N = size
-        f = S.construct(T1, 'DWT1DForward', J=J, wave=wname(L), mode=mode)
-        g = S.construct(T1, 'DWT1DInverse', wave=wname(L), mode=mode)
+        f = S.construct(T1, 'DWT1DForward', J=J, wave=wname(L), **mkw)
+        g = S.construct(T1, 'DWT1DInverse', wave=wname(L), **mkw)
         b, x = base_tensor('x', 1, 1, [N])
         lens = level_lengths(N, L, mode, J)
         cond = size_cond(lens[:-1], L, mode)
@@ -594,19 +598,20 @@ def w_compose(S, item):
             Lc, Lr = L
             fa = tuple(user_filter('a%d' % i, Lc if i < 2 else Lr) for i in range(4))
             fs = tuple(user_filter('s%d' % i, Lc if i < 2 else Lr) for i in range(4))
-            f = S.construct(T2, 'DWTForward', J=J, wave=fa, mode=mode)
-            g = S.construct(T2, 'DWTInverse', wave=fs, mode=mode)
+            f = S.construct(T2, 'DWTForward', J=J, wave=fa, **mkw)
+            g = S.construct(T2, 'DWTInverse', wave=fs, **mkw)
         else:
             Lc = Lr = L
-            f = S.construct(T2, 'DWTForward', J=J, wave=wname(L), mode=mode)
-            g = S.construct(T2, 'DWTInverse', wave=wname(L), mode=mode)
+            f = S.construct(T2, 'DWTForward', J=J, wave=wname(L), **mkw)
+            g = S.construct(T2, 'DWTInverse', wave=wname(L), **mkw)
         b, x = base_tensor('x', 1, 1, [H, W])
         lh_ = level_lengths(H, Lc, mode, J)
         lw_ = level_lengths(W, Lr, mode, J)
         conds = (size_cond(lh_[:-1], Lc, mode), size_cond(lw_[:-1], Lr, mode))
         cond = ('Ne<L' if 'Ne<L' in conds else 'Ne>=L') if mode in ('periodization', 'per') else ('N<L' if 'N<L' in conds else 'N>=L')
         in_sizes = [H, W]
-    construct = 'DWT%sInverse(DWT%sForward(x))' % (('1D', '1D') if dim == 1 else ('', '')) + ('[4-filter]' if dim == 4 else '')
+    construct = 'DWT%sInverse(DWT%sForward(x))' % (('1D', '1D') if dim == 1 else ('', '')) + ('[4-filter]' if dim == 4 else '') + \
+        ('[default mode]' if not mkw else '')
     o = S.run(S.method(f, 'forward'), x)
     if o.kind == 'ok':
         yl, yh = o.value
@@ -974,6 +979,41 @@ def same_tensor(a, b):
             pr = compare_cells_multi(a, {idx: b.cells[idx]}, 'subband')
             return pr[0] if pr else ('values', 'cell %s differs' % (idx,))
     return None
+
+
+def w_dim_alias(S, item):
+    """the functional 1-D banks document `dim`: a negative axis index must denote the same operator as the positive
+    spelling of that axis.  item = (fn, mode, L, H, W, dim)"""
+    fn, mode, L, H, W, dim = item
+    res = {'cmp': 1, 'diff': 0, 'findings': [], 'sample': None}
+    f = S.get(LL, fn)
+    if fn == 'afb1d':
+        b, x = base_tensor('x', 1, 2, [H, W])
+        args = (x, user_filter('0', L), user_filter('1', L))
+    else:
+        b, co = base_tensor('co', 1, 2, [H, W], extra_e=(2,))
+        args = (co[:, :, 0], co[:, :, 1], user_filter('0', L), user_filter('1', L))
+    outs = [S.run(lambda *a: S.interp.call(f, list(a), {'mode': mode, 'dim': d}), *args) for d in (dim, dim % 4)]
+    o1, o2 = outs
+    construct = '%s(dim=%d) vs %s(dim=%d)' % (fn, dim, fn, dim % 4)
+    if o1.kind != 'ok' or o2.kind != 'ok':
+        if o1.kind == o2.kind and getattr(o1.exc, 'name', 1) == getattr(o2.exc, 'name', 2):
+            res['sample'] = {'config': list(item), 'outcome': 'both raise'}
+            return res
+        res['diff'] = 1
+        bad = o1 if o1.kind != 'ok' else o2
+        res['findings'].append(exc_finding(S, bad, construct, '%s:one-spelling-raises' % mode))
+        return res
+    prob = same_tensor(o1.value, o2.value)
+    if prob:
+        res['diff'] = 1
+        res['findings'].append(finding('R-DIM', construct, '%s:%s' % (mode, prob[0]),
+                                       'mode=%s L=%d HxW=%dx%d: %s' % (mode, L, H, W, prob[1]), anchor=anchor(S, LL, fn)))
+    else:
+        res['sample'] = {'config': list(item), 'verdict': 'same operator'}
+    for fi in S.take_findings():
+        res['findings'].append(fi.as_dict())
+    return res
 
 
 def user_filts(n, Lc, Lr):
